@@ -367,7 +367,13 @@ func (c *Collection) WriteCas(key string, exp Exp, cas CAS, val any, opt sgbucke
 		}
 		if nRows, _ := result.RowsAffected(); nRows == 0 {
 			// SQLite didn't insert/update anything. Why not?
-			if _, existingCas, _, err2 := c.getRaw(txn, key); err2 == nil {
+			_, existingCas, _, err2 := c.getRaw(txn, key)
+			if _, isMissing := err2.(sgbucket.MissingError); isMissing && cas != 0 && existingCas != 0 {
+				// The document is a tombstone by now, with another CAS: for the caller (and for
+				// the retry loops of Update and the subdoc writes) that is a CAS mismatch.
+				err2 = nil
+			}
+			if err2 == nil {
 				if opt&sgbucket.AddOnly != 0 {
 					err = sgbucket.ErrKeyExists
 				} else {
